@@ -163,7 +163,7 @@ class CovarianceMatrix(object):
                             self.n_subaps[wfs_i], self.n_subaps[wfs_j],
                             self.subap_layer_positions[layer_n][wfs_i], self.subap_layer_positions[layer_n][wfs_j],
                             self.subap_layer_diameters[layer_n][wfs_i], self.subap_layer_diameters[layer_n][wfs_j],
-                            self.layer_r0s[layer_n], self.layer_L0s[layer_n])
+                            self.layer_r0s[layer_n], self.layer_L0s[layer_n], return_yx=True)
 
                     subap_ni = self.n_subaps[:wfs_i].sum()
                     subap_nj = self.n_subaps[:wfs_j].sum()
@@ -288,10 +288,10 @@ class CovarianceMatrix(object):
 
 
 def wfs_covariance_mpwrap(args):
-    return wfs_covariance(*args)
+    return wfs_covariance(*args, return_yx=True)
 
 
-def wfs_covariance(n_subaps1, n_subaps2, wfs1_positions, wfs2_positions, wfs1_diam, wfs2_diam, r0, L0):
+def wfs_covariance(n_subaps1, n_subaps2, wfs1_positions, wfs2_positions, wfs1_diam, wfs2_diam, r0, L0, return_yx=False):
     """
     Calculates the covariance between 2 WFSs
 
@@ -304,9 +304,12 @@ def wfs_covariance(n_subaps1, n_subaps2, wfs1_positions, wfs2_positions, wfs1_di
         wfs2_diam: Diameter of WFS 2 sub-apertures
         r0: Fried parameter of turbulence
         L0: Outer scale of turbulence
+        return_yx (bool, optional): also return the covariance of Y (WFS 1) with X (WFS 2),
+            which differs from that of X with Y when the two sub-aperture sizes differ
 
     Returns:
-        slope covariance of X with X , slope covariance of Y with Y, slope covariance of X with Y, slope covariance of Y with X
+        slope covariance of X with X , slope covariance of Y with Y, slope covariance of X with Y
+        (and, if ``return_yx``, slope covariance of Y with X)
     """
 
     xy_seperations = calculate_wfs_seperations(n_subaps1, n_subaps2, wfs1_positions, wfs2_positions)
@@ -321,7 +324,9 @@ def wfs_covariance(n_subaps1, n_subaps2, wfs1_positions, wfs2_positions, wfs1_di
     else:
         cov_yx = compute_covariance_xy(xy_seperations, wfs2_diam, wfs1_diam, r0, L0)
 
-    return cov_xx, cov_yy, cov_xy, cov_yx
+    if return_yx:
+        return cov_xx, cov_yy, cov_xy, cov_yx
+    return cov_xx, cov_yy, cov_xy
 
 
 def calculate_wfs_seperations(n_subaps1, n_subaps2, wfs1_positions, wfs2_positions):
@@ -444,8 +449,8 @@ def structure_function_vk(seperation, r0, L0):
     # everything in double precision (float32 separations or outer scales would
     # otherwise do the cancellation-prone maths below in single precision)
     seperation = numpy.asarray(seperation, dtype=numpy.float64)
-    r0 = float(r0)
-    L0 = float(L0)
+    r0 = numpy.asarray(r0, dtype=numpy.float64)[()]
+    L0 = numpy.asarray(L0, dtype=numpy.float64)[()]
 
     # x = 2 pi r / L0;  D = 0.17253 (L0/r0)^(5/3) (1 - 2^(1/6)/Gamma(5/6) x^(5/6) K_5/6(x))
     x = 2 * numpy.pi * seperation / L0
